@@ -98,9 +98,9 @@ func worstHazard(hs []hazard) string {
 type analysis struct {
 	invalidUTF8 string // path of the first string value that is not valid UTF-8 ("" = none)
 	hazards     []hazard
-	feat    map[string]bool
-	order   []string // feature names in first-seen order (no map iteration)
-	nodes   []*gnode // every node, pre-order (for sub-node sampling)
+	feat        map[string]bool
+	order       []string // feature names in first-seen order (no map iteration)
+	nodes       []*gnode // every node, pre-order (for sub-node sampling)
 }
 
 func (a *analysis) set(name string) {
